@@ -877,13 +877,18 @@ func (m memoizedContext) after(c context) context {
 func (e *escaper) computeOutCtx(c context, t *template.Template) context {
 	// Propagate context over the body.
 	c1, ok := e.escapeTemplateBody(c, c, t)
-	if !ok && c1.state != stateError {
+	for attempt := 0; attempt < 4 && !ok && c1.state != stateError; attempt++ {
 		// Look for a fixed point by assuming c1 as the output context. The body still
 		// starts in c, the context of the call.
-		if c2, ok2 := e.escapeTemplateBody(c, c1, t); ok2 {
+		c2, ok2 := e.escapeTemplateBody(c, c1, t)
+		if ok2 {
 			c1, ok = c2, true
+		} else if c2.state == stateError || c2.same(c1) {
+			break
+		} else {
+			c1 = c2
 		}
-		// Use c1 as the error context if neither assumption worked.
+		// Use c1 as the error context if no assumption worked.
 	}
 	if !ok && c1.state != stateError {
 		return context{
